@@ -488,6 +488,11 @@ def run(prog, rep, tier):
     if check_sort_after_reorder(prog, rep, so_units) < 2:
         raise AnalysisError('PAIR-sort-after-reorder: the twins of iadd_prefactor_other / '
                             'ibinary_blockwise were not found')
+    from ..twins import check_augassign_guards
+    rep.rule('PAIR-augassign-guards', 'in-place updates of a local array that both twins perform are '
+             'performed under the same branch conditions')
+    if check_augassign_guards(prog, rep, pairs, pyx) < 1:
+        raise AnalysisError('PAIR-augassign-guards: no common in-place update found in the twins')
     if check_raise_guards(prog, rep, pairs, pyx) < 3:
         raise AnalysisError('PAIR-raise-guards: fewer than 3 common raises in the twins')
     rep.floor('PAIR-regions', 15)
